@@ -123,7 +123,7 @@ CHECKS = {
     ),
     "C17": dict(
         text="Static discharge of the client wiring clause only (last sentence of the property): def-use wiring of Client.send, header table with copy of the caller's "
-        "headers, payload type check, Config vocabulary, exact (non-substring) WSDL part selection.",
+        "headers, payload type check, Config vocabulary, exact (non-substring) WSDL part selection, per-operation configuration copies, message-part prefixes resolved in the part's own scope.",
         design_ref="DESIGN.md section 4 C17",
         note=_STATIC_NOTE + " Explicitly NOT decided: generation of services/envelopes for arbitrary WSDL definitions.",
         technique="static analysis: def-use / single-assignment wiring check, CFG control dependence for the header table, vocabulary agreement",
@@ -147,7 +147,7 @@ CHECKS = {
     "C02": dict(
         text="Static discharge of stage-agreement clauses only (the generator cannot run here): field-metadata vocabulary agreement between generator, runtime builder and "
         "docs; restriction keys are Restrictions fields; tag->kind table; pipeline typestate (step-aware lookups, every handler scheduled once); namespace-"
-        "inheritance agreement for attributes; transitive substitution groups; renumbering scheduled last.",
+        "inheritance agreement for attributes; transitive substitution groups; renumbering scheduled last; a member declaration's own prefix bindings are merged before its type names are resolved; the simple-content text carrier is never an XML attribute.",
         design_ref="DESIGN.md section 4 C02",
         note=_STATIC_NOTE + " Not decided: that schema-valid documents parse and re-serialize faithfully with generated classes; option independence.",
         technique="static analysis: three-way vocabulary agreement (code/code/docs), table totality, who-may-read rule on the class container, CFG must-pass",
